@@ -245,6 +245,12 @@ enum Act {
     /// (inside spawn_session, after the started-guard, before the task is spawned) until all `n` threads have either
     /// reached it or returned; a guard that is one atomic read-modify-write lets exactly one thread reach the point.
     InputRace { rounds: u32, n: u8, input: InputSpec, stepped: bool },
+    /// POST /threads/{id}/messages whose client hangs up: the request future is polled ONCE by hand and dropped when it is
+    /// still pending (what hyper/axum do with the handler future of a connection that went away).  `hold` = while it is
+    /// polled another request sits inside the critical section of the router's session map (hook point
+    /// `server.sessions.locked` in create_session), so the handler's `sessions.lock().await` really suspends.
+    /// Router only, kernel stub (no provider).  Property: a message that reached the thread has its run_spawned frame.
+    PostDrop { hold: bool },
 }
 
 #[derive(Clone, Debug, PartialEq, Serialize, Deserialize)]
@@ -602,6 +608,8 @@ struct Ids {
     status2: u16,
     /// InputRace: session id and number of accepted inputs of every round
     race: Vec<(String, u32)>,
+    /// PostDrop: the request future was still pending after its first poll and was dropped
+    dropped: bool,
 }
 
 struct IdMap(BTreeMap<String, u64>);
@@ -971,6 +979,86 @@ fn race<F: Fn(usize) -> bool + Sync>(n: usize, stepped: bool, f: F) -> u32 {
     accepted
 }
 
+// ---- a request whose client hangs up while the handler is suspended
+thread_local! {
+    static HOLDER: std::cell::Cell<bool> = const { std::cell::Cell::new(false) };
+}
+#[derive(Default)]
+struct HoldState {
+    held: bool,
+    finished: bool,
+    released: bool,
+}
+static HOLD: std::sync::Mutex<Option<HoldState>> = std::sync::Mutex::new(None);
+static HOLD_CV: std::sync::Condvar = std::sync::Condvar::new();
+/// called from the global hook at `server.sessions.locked` (inside the critical section of the session map)
+fn hold_point() {
+    if !HOLDER.with(|h| h.get()) {
+        return;
+    }
+    let mut g = HOLD.lock().unwrap();
+    if let Some(st) = g.as_mut() {
+        st.held = true;
+    }
+    HOLD_CV.notify_all();
+    while !g.as_ref().map(|s| s.released).unwrap_or(true) {
+        g = HOLD_CV.wait(g).unwrap();
+    }
+}
+struct NoopWake;
+impl std::task::Wake for NoopWake {
+    fn wake(self: Arc<Self>) {}
+}
+/// Polls the request ONCE; Some(response) when the handler ran to completion in that poll, None when it was still
+/// pending and has been dropped.  With `hold`, a second request (POST /sessions, on its own OS thread) is parked inside
+/// the session map's critical section for the duration of the poll.
+fn post_and_hang_up(app: &axum::Router, request: axum::http::Request<axum::body::Body>, hold: bool, h: &tokio::runtime::Handle) -> Option<(u16, Value)> {
+    use std::future::Future;
+    *HOLD.lock().unwrap() = Some(HoldState::default());
+    let out = std::thread::scope(|sc| {
+        let holder = hold.then(|| {
+            sc.spawn(|| {
+                HOLDER.with(|x| x.set(true));
+                let _ = std::panic::catch_unwind(std::panic::AssertUnwindSafe(|| h.block_on(call_json(app, req("POST", "/sessions", None)))));
+                if let Some(st) = HOLD.lock().unwrap().as_mut() {
+                    st.finished = true;
+                }
+                HOLD_CV.notify_all();
+            })
+        });
+        if hold {
+            // until the holder sits in the critical section (or is through: a tree without the hook point)
+            let mut g = HOLD.lock().unwrap();
+            while !g.as_ref().map(|s| s.held || s.finished).unwrap_or(true) {
+                g = HOLD_CV.wait(g).unwrap();
+            }
+        }
+        let waker = std::task::Waker::from(Arc::new(NoopWake));
+        let mut cx = std::task::Context::from_waker(&waker);
+        let mut fut = Box::pin(call_json(app, request));
+        let polled = {
+            let _g = h.enter();
+            fut.as_mut().poll(&mut cx)
+        };
+        let out = match polled {
+            std::task::Poll::Ready(x) => Some(x),
+            // the client is gone: hyper drops the handler future
+            std::task::Poll::Pending => None,
+        };
+        drop(fut);
+        if let Some(st) = HOLD.lock().unwrap().as_mut() {
+            st.released = true;
+        }
+        HOLD_CV.notify_all();
+        if let Some(hd) = holder {
+            let _ = hd.join();
+        }
+        out
+    });
+    *HOLD.lock().unwrap() = None;
+    out
+}
+
 // ---- panics of implementation tasks (tokio catches them; the hook still sees them)
 static PANICS: std::sync::Mutex<Vec<String>> = std::sync::Mutex::new(Vec::new());
 fn panics_seen() -> usize {
@@ -994,8 +1082,8 @@ const WATCHDOG: Duration = Duration::from_secs(180);
 fn act_done(a: &Act, id: &Ids, log: &[Line], faults: &[Fault]) -> bool {
     match a {
         // the append is attempted right after the snapshot (phase 1) and fails at once
-        Act::Post { .. } if faults.contains(&Fault::RunEnded) => true,
-        Act::Post { .. } => match &id.sid {
+        Act::Post { .. } | Act::PostDrop { .. } if faults.contains(&Fault::RunEnded) => true,
+        Act::Post { .. } | Act::PostDrop { .. } => match &id.sid {
             Some(s) => log.iter().any(|l| l.ty == "continuity_run_ended" && l.s("run_session_id") == *s),
             None => true,
         },
@@ -1070,7 +1158,7 @@ async fn exec_case(c: &Case, root: &Path) -> Result<Exec, String> {
     for (i, a) in c.acts.iter().enumerate() {
         let p = match a {
             Act::Post { provider, .. } | Act::Input { provider, .. } => provider.as_ref(),
-            Act::Job { .. } | Act::Input2 { .. } | Act::InputRace { .. } => None,
+            Act::Job { .. } | Act::Input2 { .. } | Act::InputRace { .. } | Act::PostDrop { .. } => None,
         };
         match p {
             Some(p) => {
@@ -1139,7 +1227,7 @@ async fn exec_case(c: &Case, root: &Path) -> Result<Exec, String> {
                     }
                     id.status = 202;
                 }
-                Act::Job { .. } | Act::Input2 { .. } => {}
+                Act::Job { .. } | Act::Input2 { .. } | Act::PostDrop { .. } => {}
             }
             ids.push(id);
             if !c.parallel {
@@ -1250,6 +1338,21 @@ async fn exec_case(c: &Case, root: &Path) -> Result<Exec, String> {
                         id.race.push((sid, accepted));
                     }
                     id.status = 202;
+                }
+                Act::PostDrop { hold } => {
+                    let body = json!({"content": input_text(&InputSpec::Prompt, i)});
+                    let h = tokio::runtime::Handle::current();
+                    match post_and_hang_up(&app, req("POST", &format!("/threads/{thread}/messages"), Some(body)), *hold, &h) {
+                        Some((st, v)) => {
+                            id.status = st;
+                            if st == 202 {
+                                id.sid = v.get("session_id").and_then(|x| x.as_str()).map(|s| s.to_string());
+                                id.mid = v.get("message_id").and_then(|x| x.as_str()).map(|s| s.to_string());
+                                runs_started += 1;
+                            }
+                        }
+                        None => id.dropped = true,
+                    }
                 }
                 Act::Job { stride, max_new, fail } => {
                     if *fail {
@@ -1365,6 +1468,12 @@ fn cfg_term(p: Option<&ProviderSpec>) -> String {
     format!("{{| g_provider := {}; g_stateless := {} |}}", coq_bool(p.is_some()), coq_bool(p.map(|p| p.stateless).unwrap_or(false)))
 }
 
+/// message frames with the content of activity `i`'s post (the harness gives every post its own text)
+fn orphan_frames(log: &[Line], i: usize) -> Vec<&Line> {
+    let text = input_text(&InputSpec::Prompt, i);
+    log.iter().filter(|l| l.ty == "continuity_message_appended" && l.s("content") == text).collect()
+}
+
 /// Coq `case` term + the flat expectation, or None when an activity was refused (nothing to compare)
 fn case_term(c: &Case, ex: &Exec, cal: &Calib) -> Option<String> {
     let mut idmap = BTreeMap::new();
@@ -1388,7 +1497,18 @@ fn case_term(c: &Case, ex: &Exec, cal: &Calib) -> Option<String> {
     let mut acts = vec![];
     let mut expects = vec![];
     let mut races: Vec<String> = vec![];
+    let mut drops: Vec<String> = vec![];
     for (i, (a, id)) in c.acts.iter().zip(&ex.ids).enumerate() {
+        if let (Act::PostDrop { .. }, true) = (a, id.dropped) {
+            // what the dropped request left in the log (the model says: nothing)
+            let left = orphan_frames(&ex.log, i);
+            let mut flat = vec![left.len() as u64];
+            for _ in &left {
+                flat.extend([2, 20, 0]);
+            }
+            drops.push(coq_list_n(&flat));
+            continue;
+        }
         if let Act::InputRace { input, n, stepped, .. } = a {
             if *stepped {
                 // the forced schedule: the model plays the guard it has (Gen ties its kind to runner.rs)
@@ -1411,7 +1531,12 @@ fn case_term(c: &Case, ex: &Exec, cal: &Calib) -> Option<String> {
             continue;
         }
         let (term, owned): (String, Vec<&Line>) = match a {
-            Act::Post { input, provider } => {
+            Act::Post { .. } | Act::PostDrop { .. } => {
+                let (input, provider) = match a {
+                    Act::Post { input, provider } => (input.clone(), provider.clone()),
+                    _ => (InputSpec::Prompt, None),
+                };
+                let (input, provider) = (&input, &provider);
                 let (Some(sid), Some(mid)) = (&id.sid, &id.mid) else { return None };
                 let t = format!("APost {} {} {} {}", cfg_term(provider.as_ref()), 200 + i, 100 + i, input_term(input, provider.as_ref(), &ex.preds[i], cal, !c.break_summaries));
                 let o = ex.log.iter().filter(|l| (l.is_session() && l.stream == *sid) || (l.is_cont() && ((l.ty == "continuity_message_appended" && l.id == *mid) || l.s("run_session_id") == *sid))).collect();
@@ -1466,7 +1591,14 @@ fn case_term(c: &Case, ex: &Exec, cal: &Calib) -> Option<String> {
         expects.push(coq_list_n(&flat));
     }
     let faults: Vec<u64> = c.faults.iter().map(|f| f.code()).collect();
-    Some(format!("{{| k_acts := {}; k_expect := {}; k_races := {}; k_faults := {} |}}", coq_list(&acts, |s| s.clone()), coq_list(&expects, |s| s.clone()), coq_list(&races, |s| s.clone()), coq_list_n(&faults)))
+    Some(format!(
+        "{{| k_acts := {}; k_expect := {}; k_races := {}; k_faults := {}; k_drops := {} |}}",
+        coq_list(&acts, |s| s.clone()),
+        coq_list(&expects, |s| s.clone()),
+        coq_list(&races, |s| s.clone()),
+        coq_list_n(&faults),
+        coq_list(&drops, |s| s.clone())
+    ))
 }
 
 // ------------------------------------------------------------------ generator
@@ -1655,11 +1787,27 @@ fn gen_input(r: &mut Rng) -> InputSpec {
         _ => InputSpec::CkRewindMissing,
     }
 }
+/// an input a router post can carry (no own-checkpoint rewind: the session id is not known before)
+fn gen_input_router(r: &mut Rng) -> InputSpec {
+    match gen_input(r) {
+        InputSpec::CkRewindOwn => InputSpec::CkRewindMissing,
+        x => x,
+    }
+}
 fn gen_case(r: &mut Rng, i: usize, caps: &[u32]) -> Case {
     if i % 25 == 7 {
         // a summarizer job that fails: posts through the kernel stub (no tool writes artifacts), then the job
         let mut acts: Vec<Act> = (0..r.range(1, 3)).map(|_| Act::Post { input: InputSpec::Prompt, provider: None }).collect();
         acts.push(Act::Job { stride: 1, max_new: r.range(1, 3), fail: true });
+        return Case { faults: vec![], engine: false, parallel: false, acts, break_summaries: false };
+    }
+    if i % 25 == 19 {
+        // posts whose clients hang up (with and without a contended session map), among ordinary posts
+        let mut acts: Vec<Act> = vec![];
+        for _ in 0..r.range(2, 4) {
+            acts.push(if r.chance(1, 2) { Act::PostDrop { hold: r.chance(2, 3) } } else { Act::Post { input: gen_input_router(r), provider: None } });
+        }
+        acts.push(Act::PostDrop { hold: true });
         return Case { faults: vec![], engine: false, parallel: false, acts, break_summaries: false };
     }
     let engine = i % 3 == 2;
@@ -1764,6 +1912,8 @@ fn corpus() -> Vec<Case> {
         Case { faults: vec![], break_summaries: false, engine: false, parallel: false, acts: vec![Act::InputRace { rounds: 2, n: 2, input: InputSpec::Prompt, stepped: true }] },
         // a long localized error page: 'x' then 2-byte characters, a character straddles offset 2048
         Case { faults: vec![], break_summaries: false, engine: false, parallel: false, acts: vec![post(vec![Req::HttpBody { status: 502, body: BodySpec { prefix: 1, cp: 0xE9, count: 4000, tail: 0 } }])] },
+        // the client of a post hangs up while the handler is suspended at the session map's lock (and, uncontended, never suspends)
+        Case { faults: vec![], break_summaries: false, engine: false, parallel: false, acts: vec![Act::Post { input: InputSpec::Prompt, provider: None }, Act::PostDrop { hold: true }, Act::PostDrop { hold: false }, Act::Post { input: InputSpec::Prompt, provider: None }] },
         // tool-call limit: 3 rounds of 12 calls
         Case { faults: vec![], break_summaries: false, engine: false, parallel: false, acts: vec![post((0..4).map(|_| text_req(std::iter::once(Sse::Created { id: true }).chain((0..12).map(|_| Sse::Call(Tool::Ls))).collect())).collect())] },
     ]
@@ -1851,6 +2001,7 @@ fn label(c: &Case) -> Vec<String> {
             Act::Job { fail, .. } => v.push(if *fail { "job-fails".into() } else { "job".into() }),
             Act::Input2 { wait, .. } => v.push(format!("double-input-wait={wait}")),
             Act::InputRace { n, stepped, .. } => v.push(format!("concurrent-inputs={n} {}", if *stepped { "stepped" } else { "raced" })),
+            Act::PostDrop { hold } => v.push(format!("post-client-hangs-up session-map-lock-{}", if *hold { "contended" } else { "free" })),
         }
     }
     v.sort();
@@ -1872,6 +2023,8 @@ fn main() {
             SNAPS.fetch_add(1, Ordering::SeqCst);
         } else if name == "session.spawn.guarded" {
             race_point();
+        } else if name == "server.sessions.locked" {
+            hold_point();
         }
     })));
     // panics of implementation tasks: tokio swallows them, the run just never ends - record them
@@ -2063,7 +2216,29 @@ fn main() {
                 break;
             }
         }
-        let viol = oracle(&ex.log, &c.faults);
+        // a post whose client hung up while the handler was suspended: whatever it logged, a message has its run
+        let mut orphan_ids: Vec<String> = vec![];
+        for (k, (a_, id)) in c.acts.iter().zip(&ex.ids).enumerate() {
+            if let Act::PostDrop { hold } = a_ {
+                res.bump(if id.dropped { "post-client-hangs-up=dropped-while-suspended" } else { "post-client-hangs-up=completed-in-one-poll" });
+                if !id.dropped {
+                    continue;
+                }
+                let spawned = |mid: &str| ex.log.iter().any(|l| l.ty == "continuity_run_spawned" && l.s("message_id") == mid);
+                let left: Vec<String> = orphan_frames(&ex.log, k).iter().filter(|l| !spawned(&l.id)).map(|l| l.id.clone()).collect();
+                if let Some(m) = left.first() {
+                    bad = true;
+                    res.oracle_violations.push(OracleViolation {
+                        case_id: i as i64,
+                        what: format!("POST /threads/{{id}}/messages, the request future dropped at its first suspension point (session map lock contended: {hold}): message {m} is on the thread with 0 run_spawned frames - no run was announced or started for it"),
+                        class: "message-without-run(request-dropped)".into(),
+                        replay: cj.clone(),
+                    });
+                }
+                orphan_ids.extend(left);
+            }
+        }
+        let viol: Vec<(String, String)> = oracle(&ex.log, &c.faults).into_iter().filter(|(what, class)| !(class == "spawn-count" && orphan_ids.iter().any(|m| what.contains(m.as_str())))).collect();
         if let Some((what, class)) = viol.first() {
             bad = true;
             res.oracle_violations.push(OracleViolation { case_id: i as i64, what: format!("{what} (+{} more)", viol.len() - 1), class: class.clone(), replay: cj.clone() });
@@ -2097,7 +2272,7 @@ fn main() {
                 res.bump("not-compared(activity refused)");
             }
         }
-        let nontrivial = c.acts.iter().any(|x| matches!(x, Act::Post { provider: Some(_), .. } | Act::Input { provider: Some(_), .. } | Act::Post { input: InputSpec::ToolEnv { .. }, .. } | Act::Input { input: InputSpec::ToolEnv { .. }, .. } | Act::InputRace { .. }));
+        let nontrivial = c.acts.iter().any(|x| matches!(x, Act::Post { provider: Some(_), .. } | Act::Input { provider: Some(_), .. } | Act::Post { input: InputSpec::ToolEnv { .. }, .. } | Act::Input { input: InputSpec::ToolEnv { .. }, .. } | Act::InputRace { .. } | Act::PostDrop { .. }));
         if nontrivial {
             distinct.add(&cj.to_string());
         }
